@@ -393,7 +393,9 @@ func (vm *Type) Run(retResult bool) (value.Type, error) {
 			nip := m.IP()
 			if nip == nil {
 				m.ResetSP()
-				m.Push(val)
+				if retResult {
+					m.Push(val)
+				}
 				ip = len(*cs) - 1
 				break
 			}
